@@ -21,7 +21,7 @@ def parseResponse (m : Method) (maxHeaders cap : Nat) (t : Transport) : RR Resp 
   | (.ok (status, hs), r1) =>
     (match chooseFraming m status hs with
      | .error e => .err e
-     | .ok f => .ok { status := status, headers := hs.remove nameTE, rawHeaders := hs, coding := selectCoding m hs, body := Body.new f r1 })
+     | .ok f => .ok { status := status, headers := hs.remove nameTE, rawHeaders := hs, coding := codingFor (bodyless m status) m hs, body := Body.new f r1 })
   | (.err e, _) => .err e
   | (.blocked, _) => .blocked
   | (.panic, _) => .panic
